@@ -245,6 +245,19 @@ theorem step_spec {s : St} {j : J} (op : Op) (hgi : GInv s) (hr : Rel s none j) 
   | popReact =>
     simp only [step, judgeFrom_nil]
     exact ⟨⟨hgi.inv.of_eq rfl rfl rfl rfl rfl, hgi.want⟩, ⟨hr.bad, hr.dead, hr.q⟩⟩
+  | setTelnet =>
+    simp only [step, judgeFrom_nil]
+    exact ⟨⟨hgi.inv.of_eq rfl rfl rfl rfl rfl, hgi.want⟩, ⟨hr.bad, hr.dead, hr.q⟩⟩
+  | telSet t lm =>
+    simp only [step, judgeFrom_nil]
+    exact ⟨⟨hgi.inv.of_eq rfl rfl rfl rfl rfl, hgi.want⟩, ⟨hr.bad, hr.dead, hr.q⟩⟩
+  | flushQ =>
+    simp only [step]
+    by_cases hc : s.closed = true
+    · rw [if_pos hc]; exact ⟨hgi, hr⟩
+    · rw [if_neg hc]
+      obtain ⟨a, _, c⟩ := flushMsg_top hgi hr
+      exact ⟨a, c⟩
 
 theorem runFrom_spec : ∀ (ops : List Op) (s : St) (j : J), GInv s → Rel s none j →
     GInv (runFrom s ops).1 ∧ Rel (runFrom s ops).1 none (judgeFrom j (runFrom s ops).2) := by
